@@ -4,6 +4,15 @@ SHAPE_NOTE = ("Container shapes in the typing context are fixed and small while 
               "(floats as reals); pyvc itself is trusted (cross-checked against CPython on solver-generated inputs each run).")
 
 META = {
+    "C02": {
+        "text": "Proved: state-qualified naming of every set_state override under contract (terminus prefix x side-chain "
+                "state, nucleotides), Residue.charge = sum of assigned charges to 4 decimals, the integrality guard, and "
+                "assign_termini (exactly one N- and one C-terminus patch per non-cyclic chain, none for cyclic, caps and "
+                "trailing waters). X: 400-cell formal-charge table through the real pipeline for all six force fields. "
+                "B: set_termini chain splitting enumerated on peptides of <= 8 residues.",
+        "note": "Known finding D10 (one-residue chain) is carved out and replayed each run; HIS.set_state and nucleic "
+                "strand totals are only in the X/B parts; apply_patch is a trusted stub in the contracts. " + SHAPE_NOTE,
+    },
     "C06": {
         "text": "Biomolecule.apply_pka_values proved equal to the statement's decision rule (state flips exactly at "
                 "pH = pKa iff the force field can parameterise the state at that chain position, otherwise default "
